@@ -382,6 +382,52 @@ Section STATEMENT.
           eapply Forall_impl; [|exact Hge]. cbn. intros a Ha. lia.
         * repeat split; reflexivity.
   Qed.
+  (* the same for an engine with ANY look-back L (the hints then carry Start = first evaluation time - L): the guard of step
+     bucketing becomes "Step divides L" *)
+  Theorem promql_over_raw_samples_guarded_L (L : Z) cluster dbname h ms db :
+    use_raw_data h = true -> 0 <= h_start h -> hints_guard_L L h = true ->
+    db_ok (from_day (h_start h * 1000000)) (d_gin db) (d_series db) ->
+    selective re_full ms = true -> (List.length ms <= 63)%nat ->
+    exists rows, prom_query_rows re_match re_full cluster dbname h ms db = Some rows /\
+      forall fp,
+        let raw := rows_of fp (expected_rows re_full h ms db) in
+        let got := rows_of fp rows in
+        (plain_hints h = true -> got = raw) /\
+        (is_instant (h_func h) = true -> forall k,
+           stale_edge (h_start h) (h_step h) L (h_start h + L + k * h_step h) raw = false ->
+           visible L (h_start h + L + k * h_step h) got =
+           visible L (h_start h + L + k * h_step h) raw) /\
+        (is_instant (h_func h) = false -> forall k,
+           window (h_range h) (h_start h + h_range h + k * h_step h) got =
+           window (h_range h) (h_start h + h_range h + k * h_step h) raw).
+  Proof.
+    intros Hraw H0 Hguard Hdb Hne Hlen.
+    exists (hinted_rows h (expected_rows re_full h ms db)). split.
+    - apply prom_rows_all_hints; try assumption. intros Hi. unfold hints_guard_L in Hguard. rewrite Hi in Hguard.
+      destruct (Z.eqb_spec (h_step h) 0) as [E|E]; [lia|]. apply andb_prop in Hguard. destruct Hguard as [Hp _].
+      apply Z.ltb_lt in Hp. lia.
+    - intros fp. cbv zeta. destruct (expected_series_facts h ms db fp H0) as [Hasc Hge].
+      set (raw := rows_of fp (expected_rows re_full h ms db)) in *.
+      unfold hinted_rows, plain_hints, hints_guard_L in *.
+      destruct (Z.eqb_spec (h_step h) 0) as [E0|E0]; [repeat split; reflexivity|].
+      destruct (is_instant (h_func h)) eqn:Ei.
+      + apply andb_prop in Hguard. destruct Hguard as [Hp Hrem]. apply Z.ltb_lt in Hp. apply Z.eqb_eq in Hrem.
+        assert (Hgot : rows_of fp (bucket_rows (h_start h) (h_step h) (expected_rows re_full h ms db)) =
+                       bucket_series (h_start h) (h_step h) raw).
+        { apply bucket_rows_series; [assumption|]. rewrite expected_rows_raw. apply raw_rows_sorted. }
+        rewrite Hgot. split; [cbn; discriminate|]. split; [|discriminate].
+        intros _ k Hst. now apply instant_selector_over_bucketed.
+      + destruct (is_range (h_func h) && (h_range h <? h_step h)) eqn:Er.
+        * apply andb_prop in Hguard. destruct Hguard as [Hr0 Hrem]. apply Z.leb_le in Hr0. apply Z.eqb_eq in Hrem.
+          apply andb_prop in Er. destruct Er as [_ Er]. apply Z.ltb_lt in Er.
+          rewrite rows_of_filter. fold raw. fold (range_filter (h_step h) (h_range h) raw).
+          split; [cbn; discriminate|]. split; [discriminate|]. intros _ k.
+          apply range_selector_over_filtered; [lia|assumption|].
+          eapply Forall_impl; [|exact Hge]. cbn. intros a Ha. lia.
+        * repeat split; reflexivity.
+  Qed.
+  Lemma hints_guard_default h : hints_guard_L lookback_ms h = hints_guard h.
+  Proof. reflexivity. Qed.
 End STATEMENT.
 
 (* ====================== D. every selected series once, ascending, for EVERY hint combination ====================== *)
